@@ -77,9 +77,6 @@ Proof.
   - intros y z H H'. exact (Z.lt_le_trans _ _ _ H H').
 Qed.
 
-Definition cmp_prod {A B} (c1 : A -> A -> comparison) (c2 : B -> B -> comparison) (x y : A * B) :=
-  lex (c1 (fst x) (fst y)) (c2 (snd x) (snd y)).
-
 Lemma lawful_prod {A B} (c1 : A -> A -> comparison) (c2 : B -> B -> comparison) :
   lawful c1 -> lawful c2 -> lawful (cmp_prod c1 c2).
 Proof.
@@ -108,33 +105,48 @@ Proof.
     eapply T; eauto.
 Qed.
 
-Lemma lawful_var : lawful cmp_var.
+Lemma lawful_unit : lawful cmp_unit.
+Proof. intros []. repeat split; try reflexivity; try (intros []; reflexivity); intros [] [] H; discriminate H. Qed.
+
+Lemma lawful_ext {A} (c c' : A -> A -> comparison) : (forall x y, c x y = c' x y) -> lawful c' -> lawful c.
 Proof.
-  assert (L := lawful_inj (cmp_prod cmp_str N.compare) (fun v => (vname v, vidx v))
-                          (lawful_prod _ _ lawful_str lawful_N)).
-  assert (I : forall x y : var, (vname x, vidx x) = (vname y, vidx y) -> x = y).
-  { intros [n i] [n' i'] H; simpl in H; congruence. }
-  specialize (L I). intros x. specialize (L x).
-  unfold lawful_at, cmp_var, cmp_prod in *. simpl in L.
-  repeat setoid_rewrite lex_Eq_r. exact L.
+  intros E L x. destruct (L x) as (R & Eq' & An & T). repeat split.
+  - rewrite E. exact R.
+  - intros y H. rewrite E in H. auto.
+  - intros y. rewrite !E. apply An.
+  - intros y z H H'. rewrite E in *. eapply T; eauto.
 Qed.
 
-Definition atom_tuple (a : atom) :=
-  (a_str a, (a_sym a, (a_flt a, (a_int a, a_var a)))).
+(* the generated chains are the lexicographic products of their components, whatever the order the code tries them in *)
+Ltac lawful_components :=
+  repeat first [ apply lawful_prod | apply lawful_opt | apply lawful_str | apply lawful_Z | apply lawful_N
+               | apply lawful_unit | assumption ].
+
+Lemma cmp_var_unfold x y : cmp_var x y = var_cmp (var_proj x) (var_proj y).
+Proof. reflexivity. Qed.
+
+(* every field of Variable is compared: the compared components determine the value *)
+Lemma var_proj_inj x y : var_proj x = var_proj y -> x = y.
+Proof. destruct x, y. unfold var_proj. simpl. intros H. inversion H. reflexivity. Qed.
+
+Lemma lawful_var : lawful cmp_var.
+Proof.
+  apply (lawful_ext _ (fun x y => var_cmp (var_proj x) (var_proj y)) cmp_var_unfold).
+  apply lawful_inj; [|exact var_proj_inj]. unfold var_cmp. lawful_components.
+Qed.
+
+Lemma cmp_atom_unfold x y : cmp_atom x y = atom_cmp (atom_proj x) (atom_proj y).
+Proof. reflexivity. Qed.
+
+(* every field of Atom is compared *)
+Lemma atom_proj_inj x y : atom_proj x = atom_proj y -> x = y.
+Proof. destruct x, y. unfold atom_proj. simpl. intros H. inversion H. reflexivity. Qed.
 
 Lemma lawful_atom : lawful cmp_atom.
 Proof.
-  pose (c := cmp_prod (cmp_opt cmp_str) (cmp_prod (cmp_opt cmp_str) (cmp_prod (cmp_opt Z.compare)
-             (cmp_prod (cmp_opt Z.compare) (cmp_opt cmp_var))))).
-  assert (Lc : lawful c).
-  { unfold c. repeat apply lawful_prod; apply lawful_opt;
-      auto using lawful_str, lawful_Z, lawful_var. }
-  assert (I : forall x y : atom, atom_tuple x = atom_tuple y -> x = y).
-  { intros [a b c0 d e] [a' b' c' d' e'] H; unfold atom_tuple in H; simpl in H; congruence. }
-  assert (L := lawful_inj c atom_tuple Lc I).
-  intros x. specialize (L x).
-  unfold lawful_at, cmp_atom, c, cmp_prod, atom_tuple in *. simpl in L.
-  repeat setoid_rewrite lex_Eq_r. exact L.
+  apply (lawful_ext _ (fun x y => atom_cmp (atom_proj x) (atom_proj y)) cmp_atom_unfold).
+  apply lawful_inj; [|exact atom_proj_inj]. unfold atom_cmp.
+  pose proof lawful_var as Lv. lawful_components.
 Qed.
 
 Scheme sexpr_mut := Induction for sexpr Sort Prop
@@ -149,8 +161,9 @@ Proof.
     + intros [|q b]; reflexivity.
     + intros [|q b] [|r c]; simpl; intros H H'; try discriminate; try congruence.
   - (* SNode *) intros p IHp a.
-    pose proof (lex_props cmp_pair (cmp_opt cmp_atom) p a IHp (lawful_opt _ lawful_atom a))
-      as (R & E & An & T).
+    pose proof (lawful_opt _ lawful_atom a) as La.
+    first [ pose proof (lex_props cmp_pair (cmp_opt cmp_atom) p a IHp La) as (R & E & An & T)
+          | pose proof (lex_props (cmp_opt cmp_atom) cmp_pair a p La IHp) as (R & E & An & T) ].
     repeat split.
     + simpl. rewrite lex_Eq_r. exact R.
     + intros [|q b] H; simpl in H; try discriminate. rewrite lex_Eq_r in H.
